@@ -18,7 +18,7 @@ func init() { Register(c09{}) }
 func (c09) ID() string    { return "C09" }
 func (c09) Level() string { return "fault_enumeration" }
 func (c09) Rule() string {
-	return "workload = seeded writer history (shape x page size x codec x batch grammar) x destination kind {io.Writer only; io.Writer+StringWriter+ByteWriter+ReaderFrom}; cases = for EVERY sink call k of the fault-free run: err0 transient (always) and torn / full (all bytes accepted, and an error) / err0-sticky / torn-sticky, each returning one of nine error values (plain, net.Error-like temporary+timeout, wrapped EAGAIN, io.ErrShortWrite, io.ErrUnexpectedEOF, os.ErrClosed, exactly io.EOF, a value of uncomparable type, an error whose Unwrap returns nil) (quick: seeded 1-in-4 of k, thorough: every k; 1% of thorough workloads are of the large class - pages of 100..1200 records - and sample these kinds 1-in-4). A case is non-trivial when its fault actually fired (the sink returned the injected error); distinct = distinct (workload digest, k, kind)."
+	return "workload = seeded writer history (shape x page size x codec x batch grammar) x destination kind {io.Writer only; io.Writer+StringWriter+ByteWriter+ReaderFrom+Flush+Sync; io.Writer+io.Seeker whose position is that of a file under a write buffer}; 2% of the workloads are of the giant-page class (one page body of 1.1-2.2 MiB); cases = for EVERY sink call k of the fault-free run: err0 transient (always) and torn / full (all bytes accepted, and an error) / err0-sticky / torn-sticky, each returning one of nine error values (plain, net.Error-like temporary+timeout, wrapped EAGAIN, io.ErrShortWrite, io.ErrUnexpectedEOF, os.ErrClosed, exactly io.EOF, a value of uncomparable type, an error whose Unwrap returns nil) (quick: seeded 1-in-4 of k, thorough: every k; 1% of thorough workloads are of the large class - pages of 100..1200 records - and sample these kinds 1-in-4). A case is non-trivial when its fault actually fired (the sink returned the injected error); distinct = distinct (workload digest, k, kind)."
 }
 func (c09) Assumptions() []string {
 	return []string{
@@ -28,7 +28,7 @@ func (c09) Assumptions() []string {
 	}
 }
 func (c09) Probes() []string {
-	return []string{"fired/New/magic", "fired/Write/page-header", "fired/Write/page-body", "fired/Close/footer", "fired/Close/footer-len", "fired/Close/tail-magic", "fired/kind/torn", "fired/kind/full", "fired/kind/err0-sticky", "fired/error-flavor/temporary", "fired/error-flavor/eagain", "codec/gzip", "codec/snappy", "codec/uncompressed", "sink-kind/w", "sink-kind/wx"}
+	return []string{"class/giant-page", "sink-kind/ws", "fired/New/magic", "fired/Write/page-header", "fired/Write/page-body", "fired/Close/footer", "fired/Close/footer-len", "fired/Close/tail-magic", "fired/kind/torn", "fired/kind/full", "fired/kind/err0-sticky", "fired/error-flavor/temporary", "fired/error-flavor/eagain", "codec/gzip", "codec/snappy", "codec/uncompressed", "sink-kind/w", "sink-kind/wx"}
 }
 func (c09) Runs(tier string) int {
 	if tier == "thorough" {
